@@ -229,7 +229,9 @@ class MTSPEnv(RL4COEnvBase):
         # With distance, same as TSP
         elif self.cost_type == "sum":
             locs = td["locs"]
-            locs_ordered = locs.gather(1, actions.unsqueeze(-1).expand_as(locs))
+            # the tour starts at the depot; any number of actions (padding included) may be given
+            actions = torch.cat([torch.zeros_like(actions[:, :1]), actions], dim=-1)
+            locs_ordered = locs.gather(1, actions.unsqueeze(-1).expand(-1, -1, 2))
             return -get_tour_length(locs_ordered)
 
         else:
